@@ -7,13 +7,22 @@
 static snoopy_configuration_t verif_cfg;
 snoopy_configuration_t *snoopy_tsrm_get_configuration(void){ return &verif_cfg; }
 int snoopy_configfile_load(char *p){ (void)p; return -1; }
-static int n_disp;
-int snoopy_action_log_message_dispatch(const char *m){ n_disp++; __CPROVER_assert(__CPROVER_r_ok(m, 1), "dispatch precondition: message readable"); return nondet_int(); }
+static int n_disp, depth;
+/* contract model of the dispatch chain below the handler: it emits the record through the configured output - and an output that
+   cannot emit it (path expansion over PATH_MAX in the file output, ...) reports THAT through snoopy_error_handler again */
+int snoopy_action_log_message_dispatch(const char *m){
+  n_disp++; __CPROVER_assert(__CPROVER_r_ok(m, 1), "dispatch precondition: message readable");
+  __CPROVER_assert(depth == 0, "error handler: never re-entered while its own record is being emitted (otherwise a failing output recurses until the stack overflows)");
+  depth++;
+  if (nondet_bool()) snoopy_error_handler("Maximum destination string size exceeded");
+  depth--;
+  return nondet_int();
+}
 void harness(void){
   verif_ghost_init();
   verif_mk_cfg(&verif_cfg);
   char *e = verif_mk_string(8000);
-  n_disp = 0;
+  n_disp = 0; depth = 0;
   snoopy_error_handler(e);
   if (verif_cfg.error_logging_enabled != SNOOPY_TRUE) __CPROVER_assert(n_disp == 0, "error handler: error logging off => no record of any kind");
   else __CPROVER_assert(n_disp == 1, "error handler: error logging on => one separate error record");
